@@ -159,3 +159,152 @@ def token_stream(rng, n, canonical_only=True):
         else:
             out.append(g.interp_cell('**kern'))
     return out
+
+
+# ------------------------------------------------------------------------------------------------
+# abstract documents
+# ------------------------------------------------------------------------------------------------
+NULL_I = {'k': 'other', 'kind': 'empty', 'text': '*'}
+NULL_D = {'k': 'other', 'kind': 'empty', 'text': '.'}
+
+
+def op_cell(text):
+    return {'k': 'op', 'text': text}
+
+
+class DocGen:
+    """One abstract document: headers, rows of abstract cells with live sub-spine tracking.
+    profile: 'core' (signatures before the first measure, splits re-joined before the next barline),
+             'free' (mid-score signature changes, splits across barlines)."""
+
+    def __init__(self, rng, profile='core', max_spines=4, kern_only=False, comments=True, max_measures=5, sig_weight=0.35):
+        self.rng = rng
+        self.profile = profile
+        self.max_spines = max_spines
+        self.kern_only = kern_only
+        self.comments = comments
+        self.max_measures = max_measures
+        self.cg = CellGen(rng, sig_weight=sig_weight)
+
+    def headers(self):
+        r = self.rng
+        n = r.randint(1, self.max_spines)
+        if self.kern_only:
+            return ['**kern'] * n
+        hs = ['**kern']
+        for _ in range(n - 1):
+            hs.append(r.choice(['**kern', '**kern', '**text', '**dynam', '**harm', '**fing', '**dyn', '**mxhm', '**root']))
+        r.shuffle(hs)
+        if '**kern' not in hs:
+            hs[0] = '**kern'
+        return hs
+
+    def make(self):
+        r = self.rng
+        hs = self.headers()
+        rows = []
+        live = list(range(len(hs)))          # spine id per live column
+        depth = {i: 0 for i in range(len(hs))}
+
+        def cells_row(rk, fn):
+            rows.append({'kind': 'cells', 'rk': rk, 'cells': [fn(hs[s], s) for s in live], 'live': list(live)})
+
+        def global_row():
+            rows.append({'kind': 'global', 'text': r.choice(['!!!COM: Bach', '!! a comment', '!!!OTL: Title, "x"', '!!', '!!!voices: 2', '!!!ONB: señor'])})
+
+        if self.comments:
+            for _ in range(r.choice([0, 0, 1, 2])):
+                global_row()
+        rows.append({'kind': 'cells', 'rk': 'header', 'cells': [{'k': 'header', 'text': h} for h in hs], 'live': list(live)})
+        # preamble
+        for what in ('staff', 'instr', 'clef', 'keysig', 'timesig', 'meter'):
+            p = {'staff': 0.3, 'instr': 0.3, 'clef': 0.95, 'keysig': 0.7, 'timesig': 0.7, 'meter': 0.2}[what]
+            if r.random() < p:
+                cells_row('interp', lambda h, s, w=what: self.cg.interp_cell(h, w) if h in ('**kern', '**root') else dict(NULL_I))
+        if self.comments and r.random() < 0.2:
+            global_row()
+        nm = r.randint(1, self.max_measures)
+        pickup = r.random() < 0.3
+        number = 1
+        for m in range(nm):
+            if not (m == 0 and pickup):
+                bar = self.cg.bar(number if r.random() < 0.8 else None)
+                number += 1
+                cells_row('bar', lambda h, s, b=bar: dict(b))
+            ndata = r.randint(1, 4)
+            open_splits = 0
+            for k in range(ndata):
+                x = r.random()
+                can_split = len(live) < 6 and any(hs[s] == '**kern' and depth[s] < 2 for s in live)
+                if x < 0.12 and can_split:
+                    cand = [i for i, s in enumerate(live) if hs[s] == '**kern' and depth[s] < 2]
+                    i = r.choice(cand)
+                    rows.append({'kind': 'cells', 'rk': 'split', 'cells': [op_cell('*^') if j == i else dict(NULL_I) for j in range(len(live))], 'live': list(live)})
+                    depth[live[i]] += 1
+                    live.insert(i, live[i])
+                    open_splits += 1
+                elif x < 0.18 and self.profile == 'free':
+                    cells_row('interp', lambda h, s: self.cg.interp_cell(h, r.choice(['clef', 'keysig', 'timesig', 'key', 'tandem', 'null'])))
+                elif x < 0.22 and self.comments:
+                    cells_row('fc', lambda h, s: self.cg.comment_cell())
+                elif x < 0.25 and self.comments:
+                    global_row()
+                elif x < 0.28:
+                    cells_row('null', lambda h, s: dict(NULL_D))
+                cells_row('data', lambda h, s: self.cg.data_cell(h))
+                # joins
+                pairs = [i for i in range(len(live) - 1) if live[i] == live[i + 1]]
+                if pairs and (r.random() < 0.35):
+                    self._join(rows, live, depth, r.choice(pairs))
+            if self.profile == 'core':
+                while True:
+                    pairs = [i for i in range(len(live) - 1) if live[i] == live[i + 1]]
+                    if not pairs:
+                        break
+                    self._join(rows, live, depth, pairs[0])
+                    if r.random() < 0.3:
+                        cells_row('data', lambda h, s: self.cg.data_cell(h))
+        if r.random() < 0.75:
+            bar = self.cg.bar(None)
+            if r.random() < 0.6:
+                bar['double'] = True
+            cells_row('bar', lambda h, s, b=bar: dict(b))
+        rows.append({'kind': 'cells', 'rk': 'term', 'cells': [op_cell('*-') for _ in live], 'live': list(live)})
+        if self.comments and r.random() < 0.2:
+            global_row()
+        return {'headers': hs, 'rows': rows, 'profile': self.profile}
+
+    def _join(self, rows, live, depth, i):
+        # collapse the whole run of equal spine ids starting at i? Humdrum joins adjacent `*v`; two at a time here
+        rows.append({'kind': 'cells', 'rk': 'join', 'cells': [op_cell('*v') if j in (i, i + 1) else dict(NULL_I) for j in range(len(live))], 'live': list(live)})
+        depth[live[i]] -= 1
+        del live[i + 1]
+
+
+def all_cells(doc):
+    for row in doc['rows']:
+        if row['kind'] == 'cells':
+            for c in row['cells']:
+                if c['k'] not in ('op', 'header'):
+                    yield c
+
+
+def render_documents(driver, docs):
+    """fills c['text'] (rendered by the Lean driver), c['kern'] (expected default export of the cell, from the abstract
+    description) and returns the document texts"""
+    cells = [c for d in docs for c in all_cells(d)]
+    resp = driver.ask([{'op': 'abs.expect', 'cell': c, 'clef': None} for c in cells])
+    for c, r in zip(cells, resp):
+        c['text'] = r['text']
+        c['kern'] = r['kern'].get('ok')
+    texts = []
+    for d in docs:
+        lines = []
+        for row in d['rows']:
+            if row['kind'] == 'global':
+                lines.append(row['text'])
+            else:
+                lines.append('\t'.join(c['text'] for c in row['cells']))
+        d['text'] = '\n'.join(lines) + '\n'
+        texts.append(d['text'])
+    return texts
